@@ -1,6 +1,6 @@
-"""D23 (C20): HttpServer.start() leaves the listening socket bound when Thread.start() raises.
+"""D24 (C20): HttpServer.start() leaves the listening socket bound when Thread.start() raises.
 
-Run: PYTHONPATH=/repo /venv/bin/python docs/findings/D23_http_start_thread_failure_demo.py
+Run: PYTHONPATH=/repo /venv/bin/python docs/findings/D24_http_start_thread_failure_demo.py
 Expected on the unchanged repo: start() raises RuntimeError, afterwards the port is still bound although
 _running is False, stop() changes nothing, and a second start() fails with EADDRINUSE.  (TftpServer.start()
 closes its socket in the except branch of its try: the same fault leaves the TFTP port free.)
